@@ -39,6 +39,7 @@ Fixpoint promotion_negative (c : cond) (o : obj) : bool :=
   | CMatchClass c => promoted_obj o c
   | CIsSubclass cs => match o with OClass k => existsb (promoted_cls k) cs | _ => false end
   | CNot c => promotion_negative c o
+  | CPAnd a b => promotion_negative a o || promotion_negative b o
   | CAnd a b => promotion_negative a o || promotion_negative b o
   | COr a b => promotion_negative a o || promotion_negative b o
   | _ => false
@@ -50,6 +51,48 @@ Fixpoint promotion_negative (c : cond) (o : obj) : bool :=
    type[object] / type[int]; so `x = IE; issubclass(x, int)` narrows to Never *)
 Definition enum_class_object (o : obj) : bool :=
   match o with OClass c => is_enum c | _ => false end.
+
+(* ---- clause sequence_pattern_str ----------------------------------------
+   IsAssignablePredicate(MatchableSequence, positive_only=False) (built for `case [*rest]:`)
+   applied negatively to a value typed Sequence drops it, although a str is a Sequence that a
+   sequence pattern does not match.  Only observable through constrain_value: in a match
+   statement the inverted constraint is an OR with the subpattern constraints (which are not
+   about x), so nothing is narrowed. *)
+Fixpoint has_seqis_false (c : cond) : bool :=
+  match c with
+  | CSeqIs po => negb po
+  | CNot c => has_seqis_false c
+  | CPAnd a b => has_seqis_false a || has_seqis_false b
+  | CAnd a b => has_seqis_false a || has_seqis_false b
+  | COr a b => has_seqis_false a || has_seqis_false b
+  | _ => false
+  end.
+Definition sequence_pattern_str (c : cond) (o : obj) : bool :=
+  has_seqis_false c && sub_art (class_of o) CStr.
+
+(* ---- clause assert_promotion --------------------------------------------
+   ConstraintType.is_instance / is_value (assert_is_instance, assert_is) compare classes with the
+   real issubclass / isinstance, without the int -> float -> complex promotion that membership in
+   a declared type has: x: float, assert_is_instance(x, int) leaves Never although 1 passes *)
+Fixpoint has_assert (c : cond) : bool :=
+  match c with
+  | CAssertInst _ | CAssertIs _ => true
+  | CNot c => has_assert c
+  | CPAnd a b => has_assert a || has_assert b
+  | CAnd a b => has_assert a || has_assert b
+  | COr a b => has_assert a || has_assert b
+  | _ => false
+  end.
+Definition numeric_cls (k : cls) : bool := sub k CInt || sub k CFloat.
+Definition numeric_like (o : obj) : bool :=
+  match o with OClass k => numeric_cls k | _ => numeric_cls (class_of o) end.
+Definition assert_promotion (c : cond) (o : obj) : bool := has_assert c && numeric_like o.
+
+(* patterns of TypeIs: the two patma pattern values are built only by the sequence / mapping
+   leaves; list[...] / dict[...] patterns are outside the fragment (two list types with different
+   arguments share the empty list but is_overlapping finds them disjoint) *)
+Definition pat_ok (p : bval) : bool :=
+  match p with VGen (GList _) | VGen (GDict _ _) => false | _ => true end.
 
 (* ---- hypotheses that come from the property's quantifier ---------------- *)
 
@@ -69,13 +112,15 @@ Definition eq_compatible (o l : obj) : bool := implb (py_eq o l) (obj_eqb o l).
 Fixpoint cond_ok (c : cond) (o : obj) : bool :=
   match c with
   | CIs l => singleton l && wf_obj l
+  | CAssertIs l => singleton l && wf_obj l
   | CEq l => atomic l && wf_obj l && eq_compatible o l
   | CIn ls => forallb (fun l => atomic l && wf_obj l && eq_compatible o l) ls
   | CIsInstance cs => negb (match cs with [] => true | _ => false end)
   | CIsSubclass cs => negb (match cs with [] => true | _ => false end)
   | CTypeIs t => negb (match t with [] => true | _ => false end)
-                 && forallb (fun p => match p with VTuple _ => false | VAny => false | _ => true end) t
+                 && forallb (fun p => match p with VTuple _ => false | VAny => false | VGen _ => false | _ => true end) t
   | CNot c => cond_ok c o
+  | CPAnd a b => cond_ok a o && cond_ok b o
   | CAnd a b => cond_ok a o && cond_ok b o
   | COr a b => cond_ok a o && cond_ok b o
   | _ => true
@@ -85,7 +130,7 @@ Fixpoint cond_ok (c : cond) (o : obj) : bool :=
 Definition c02_guard (c : cond) (o : obj) : bool :=
   wf_obj o && cond_ok c o
   && negb (multiple_inheritance o) && negb (subclass_bool o) && negb (promotion_negative c o)
-  && negb (enum_class_object o).
+  && negb (enum_class_object o) && negb (sequence_pattern_str c o) && negb (assert_promotion c o).
 
 (* ---- membership modulo the MinLen/MaxLen annotations (for "never widens") ---- *)
 Definition bmember_s (o : obj) (s : sval) : bool := member_b o (sbase s).
